@@ -122,4 +122,71 @@ theorem iteration_rev_spec (p : Params K) (pv : p.Valid) (t : Tree K V) (ht : Tr
   congr 1
   omega
 
+/-! ### the converting constructors (after the repair of B1) -/
+
+/-- a forward position on an entry or one past the last slot of its leaf -/
+def FwdForm (ch : List (List (K × V))) (pos : Nat × Nat) : Prop :=
+  ∃ leaf, ch[pos.1]? = some leaf ∧ pos.2 ≤ leaf.length
+
+theorem itInc_form (ch : List (List (K × V))) (pos : Nat × Nat) (hv : ValidPos ch pos) : FwdForm ch (itInc ch pos) := by
+  obtain ⟨li, s⟩ := pos
+  obtain ⟨leaf, hl, hs⟩ := hv
+  simp only at hl hs
+  simp only [itInc, hl, Option.map_some, Option.getD_some]
+  by_cases h1 : s + 1 < leaf.length
+  · rw [if_pos h1]; exact ⟨leaf, hl, by simp only; omega⟩
+  · rw [if_neg h1]
+    by_cases h2 : li + 1 < ch.length
+    · rw [if_pos h2]; exact ⟨ch[li + 1], List.getElem?_eq_getElem h2, by simp⟩
+    · rw [if_neg h2]; exact ⟨leaf, hl, by simp⟩
+
+/-- `reverse_iterator(it)`: same rank, and it refers to the entry before `it` (std: `*prev(it)`) -/
+theorem toReverse_spec (ch : List (List (K × V))) (hne : ∀ l ∈ ch, l ≠ []) (pos : Nat × Nat) (hf : FwdForm ch pos)
+    (hr : 0 < rankOf ch (some pos)) :
+    RValidPos ch (toReverse ch pos) ∧ rankOf ch (some (toReverse ch pos)) = rankOf ch (some pos) := by
+  obtain ⟨li, s⟩ := pos
+  obtain ⟨leaf, hl, hs⟩ := hf
+  simp only at hl hs
+  simp only [toReverse]
+  by_cases h0 : s = 0 ∧ li > 0
+  · rw [if_pos h0]
+    obtain ⟨hs0, hli⟩ := h0
+    subst hs0
+    obtain ⟨m, rfl⟩ : ∃ m, li = m + 1 := ⟨li - 1, by omega⟩
+    simp only [Nat.add_sub_cancel]
+    have hlt : m + 1 < ch.length := (List.getElem?_eq_some_iff.mp hl).1
+    have hp : m < ch.length := by omega
+    have hprev : ch[m]? = some ch[m] := List.getElem?_eq_getElem hp
+    have hnn : ch[m] ≠ [] := hne _ (List.getElem_mem hp)
+    have hpos : 0 < ch[m].length := List.length_pos_iff.mpr hnn
+    simp only [hprev, Option.map_some, Option.getD_some]
+    have hsum : ((ch.take (m + 1)).flatten).length = ((ch.take m).flatten).length + ch[m].length := by
+      rw [List.take_add_one, hprev]
+      simp only [Option.toList, List.flatten_append, List.length_append, List.flatten_cons, List.flatten_nil,
+        List.append_nil]
+    exact ⟨⟨ch[m], hprev, by simp only; omega, by simp only; omega⟩, by simp only [rankOf_eq, hsum, Nat.add_zero]⟩
+  · rw [if_neg h0]
+    refine ⟨⟨leaf, hl, ?_, hs⟩, rfl⟩
+    simp only
+    rcases Nat.eq_zero_or_pos s with hs0 | hs0
+    · subst hs0
+      have : li = 0 := by omega
+      subst this
+      simp [rankOf] at hr
+    · exact hs0
+
+/-- **`*reverse_iterator(it)` is the entry before `it`** (B1): for the iterator `r ≥ 1` steps behind `begin()` -/
+theorem rconv_spec (p : Params K) (pv : p.Valid) (t : Tree K V) (ht : TreeInv p t) (r : Nat) (h1 : 1 ≤ r)
+    (h2 : r ≤ t.toList.length) :
+    rderef t.leafChain (toReverse t.leafChain (iterN (itInc t.leafChain) r (0, 0))) = t.toList[r - 1]? := by
+  have hne := tree_chain_ne_nil p pv t ht
+  rw [← tree_chain_flatten] at h2 ⊢
+  obtain ⟨m, rfl⟩ : ∃ m, r = m + 1 := ⟨r - 1, by omega⟩
+  obtain ⟨hv, hrk⟩ := iterate_fwd t.leafChain hne m (by omega)
+  simp only [iterN]
+  obtain ⟨i1, _⟩ := itInc_spec t.leafChain hne _ hv
+  have hform := itInc_form t.leafChain _ hv
+  obtain ⟨q1, q2⟩ := toReverse_spec t.leafChain hne _ hform (by omega)
+  rw [rderef_valid _ _ q1, q2, i1, hrk]
+
 end TlxVerif.C01
